@@ -247,7 +247,7 @@ func onErrorPath(ci ssa.CallInstruction) bool {
 	idx := errIndex(fn.Signature)
 	bad := reachAvoiding(fn, in, func(ssa.Instruction) bool { return false }, func(x ssa.Instruction) bool {
 		r, ok := x.(*ssa.Return)
-		return ok && isNilConst(r.Results[idx])
+		return ok && isNilConst(returnOperand(r, idx))
 	})
 	return bad == nil
 }
